@@ -30,7 +30,8 @@ EXPECT_PROBES = ["created_on_grid", "created_1us_before_grid", "created_1us_afte
                  "series_added_while_running", "slow_sink", "stall_exactly_one_period", "actor_resample_restarted",
                  "moving_window_variant", "align_to_in_dst_zone", "wall_clock_ticks_between_reads",
                  "resample_restarted_by_driver", "series_added_during_tick", "series_removed_while_running",
-                 "slow_source", "source_stopped"]
+                 "slow_source", "source_stopped", "fast_source", "loop_lags_behind",
+                 "sample_stamped_just_before_window_end"]
 
 UNIX_EPOCH = datetime.fromtimestamp(0.0, tz=timezone.utc)
 PERIODS_US = [200_000, 1_000_000, 1_500_000, 3_000_000, 7_300_000]
@@ -208,13 +209,21 @@ def scenario(sim: Sim) -> None:
             c: Broadcast[Any] = Broadcast(name=name)
             rx_ = c.new_receiver()
             sources.append((c, c.new_sender(), name, rx_))
-            slow = ch.weighted("sink_profile", [3, 2, 1])
+            # 3: a consumer that is slower than the period for the whole first half of the run - the loop falls behind
+            # by several periods for sure, and series added then join a loop that resamples windows of the past
+            slow = ch.weighted("sink_profile", [3, 2, 1, 1])
 
             async def sink(sample: Any, name: str = name, slow: int = slow) -> None:
                 rec.active_sinks += 1
                 try:
                     rec.record(name, sample.timestamp)
                     if slow == 0 or sim.now_us > pre + run_us:
+                        return
+                    if slow == 3:
+                        if sim.now_us < pre + run_us // 2:
+                            sim.probe("loop_lags_behind")
+                            sim.fault("slow_sink")
+                            await asyncio.sleep(ch.int_between("sink_lag_us", period_us, 3 * period_us) / 1e6)
                         return
                     k = ch.weighted("sink_latency", [5, 2, 2] if slow == 1 else [2, 2, 4])
                     if k == 1:
@@ -294,24 +303,46 @@ def scenario(sim: Sim) -> None:
         if slow_every:
             sim.probe("slow_source")
 
+        # source rate: a bit faster than the resampling period, or 4x / 10x faster (down-sampling: a series added
+        # while the loop lags behind then has a full buffer of samples newer than the window being resampled)
+        feed_frac = ch.choice("source_interval_in_periods", [0.7, 0.7, 0.25, 0.1])
+        if feed_frac < 0.5:
+            sim.probe("fast_source")
+
+        # fast sources whose samples are stamped a few microseconds before the window ends (one sample per period
+        # at grid - delta, the others evenly in between): boundary between "in this window" and "in the next one"
+        near_grid = 0
+        if feed_frac < 0.5 and align_to is not None and ch.chance("stamps_just_before_grid", 0.4):
+            near_grid = ch.choice("stamp_delta_us", [1, 1, 2, 5])
+            sim.probe("sample_stamped_just_before_window_end")
+
         async def feeder() -> None:
             n = 0
             rnd = 0
+            per = round(1 / feed_frac)
+            step = period_us // per
+            base = creation_us + (period_us - (_us(sim.epoch - align_to) + creation_us) % period_us) % period_us \
+                + period_us - near_grid if near_grid else 0
             while True:
-                await asyncio.sleep(period_us / 1e6 * 0.7)
+                if near_grid:
+                    await _until(sim, base + (rnd // per) * period_us + (rnd % per) * step)
+                    stamp = sim.epoch + timedelta(microseconds=base + (rnd // per) * period_us + (rnd % per) * step)
+                else:
+                    await asyncio.sleep(period_us / 1e6 * feed_frac)
+                    stamp = None
                 rnd += 1
                 for j, src in enumerate(list(sources)):
                     if slow_every and j % 2 == 0 and rnd % slow_every:
                         continue      # this source delivers only every few periods (up-sampling)
                     n += 1
-                    await src[1].send(Sample(sim.wall(), Quantity(float(n))))
+                    await src[1].send(Sample(stamp or sim.wall(), Quantity(float(n))))
 
         ft = sim.spawn(feeder())
         await _until(sim, pre + run_us)
         # calm phase: no more stalls or slow sinks are started; let running sinks finish and catch up
         # (+1/3 period: never cancel exactly at a tick instant - frequenz.channels' Timer.ready() swallows a
         # CancelledError that arrives while it cleans up its helper tasks; a dependency bug, out of scope)
-        await asyncio.sleep((12 * period_us + period_us // 3 + 7) / 1e6)
+        await _calm(sim, period_us, align_to, creation[0])
         sim.loop.idle_hooks.remove(on_idle)
         calm_end = sim.now_us
         if task.done():
@@ -435,7 +466,7 @@ def scenario(sim: Sim) -> None:
 
         ft = sim.spawn(feeder())
         await _until(sim, pre + run_us)
-        await asyncio.sleep((12 * period_us + period_us // 3 + 7) / 1e6)
+        await _calm(sim, period_us, align_to, creation[0])
         calm_end = sim.now_us
         if not actor.is_running:
             sim.violation("liveness", {"variant": variant, "what": "actor stopped"}, "resampling actor not running")
@@ -495,7 +526,7 @@ def scenario(sim: Sim) -> None:
 
         ft = sim.spawn(feeder())
         await _until(sim, pre + run_us)
-        await asyncio.sleep((12 * period_us + period_us // 3 + 7) / 1e6)
+        await _calm(sim, period_us, align_to, creation[0])
         calm_end = sim.now_us
         if not mw.is_running:
             sim.violation("liveness", {"variant": variant, "what": "moving window stopped"}, "MovingWindow not running")
@@ -506,6 +537,18 @@ def scenario(sim: Sim) -> None:
             sim.violation("liveness", {"variant": variant, "what": "no tick at all"}, "MovingWindow buffer never updated")
 
     sim.run(main_raw() if variant == "raw" else (main_actor() if variant == "actor" else main_mw()))
+
+
+async def _calm(sim: Sim, period_us: int, align_to: datetime | None, creation_us: int) -> None:
+    """Calm phase of >= 12 periods that ends a third of a period after a tick instant of the resampling timer.
+
+    The end must not coincide with a tick: frequenz.channels' Timer.ready() swallows a CancelledError that arrives
+    while it cleans up its helper tasks (dependency bug, out of scope), after which stop() never returns.  The instant
+    is computed from the grid (not relative to "now": a stall that ends after the run would shift a relative sleep).
+    """
+    phase = creation_us if align_to is None else -_us(sim.epoch - align_to)
+    t_min = sim.now_us + 12 * period_us
+    await _until(sim, t_min + (phase + period_us // 3 + 7 - t_min) % period_us)
 
 
 async def _until(sim: Sim, when_us: int) -> None:
